@@ -367,7 +367,11 @@ def ob_autosql_loops(ctx, res):
         if not uses_tokens:
             cls, why = classify(fn, lp)
             if cls is None:
-                res.fail("autosqlLoop/%s" % fn.name, lp, "loop cannot be classified as terminating (%s)" % why)
+                stuck = _definitely_stuck(fn, lp)
+                if stuck:
+                    res.fail("autosqlLoop/%s" % fn.name, lp, "loop cannot end: %s" % stuck)
+                else:
+                    res.undecided("autosqlLoop/%s" % fn.name, lp, "loop not classified as terminating (%s)" % why)
             else:
                 res.ok(lp, "%s: class %s: %s" % (fn.name, cls, why))
             continue
@@ -378,7 +382,13 @@ def ob_autosql_loops(ctx, res):
                 continue
         # class D: progress + end-of-input exit
         first_tok = None
-        for x in walk_no_nested_fn(lp["body"]):
+        cond_e = strip(lp["cond"]) if lp.k == "while" else None
+        for x in (list(walk_no_nested_fn(cond_e)) if cond_e is not None else []):
+            # the condition of a `while` / `while let` runs once per iteration, unconditionally
+            if (x.k == "mcall" and x["method"].startswith("eat_")) or (x.k == "call" and "try_parse" in up(x["func"])) or _delegates(x):
+                first_tok = x
+                break
+        for x in (walk_no_nested_fn(lp["body"]) if first_tok is None else []):
             if (x.k == "mcall" and x["method"].startswith("eat_")) or (x.k == "call" and "try_parse" in up(x["func"])) or _delegates(x):
                 if not [a for a, k in cond_ancestors(x) if _is_inside(a, lp["body"])]:
                     first_tok = x
@@ -402,6 +412,13 @@ def ob_autosql_loops(ctx, res):
         env = {"parser": "PARSER", "values": "VEC", "fields": "VEC"}
         outcome = None
         try:
+            if cond_e is not None:
+                if cond_e.k == "let_expr":
+                    v_ = it.ev(cond_e["e"], env, 0)
+                    if not it.match_pat(cond_e["pat"], v_, env):
+                        raise _Break()
+                elif not it.ev(cond_e, env, 0):
+                    raise _Break()
             it.run_stmts(lp["body"]["stmts"], env)
             outcome = "iterates"
         except _Break:
@@ -420,5 +437,5 @@ def ob_autosql_loops(ctx, res):
                      "empty value each time (never returns, unbounded growth) -- e.g. a schema that ends inside `enum(` / `set(`")
         else:
             res.fail("autosqlLoop/%s/idiom" % fn.name, lp, "token loop %s" % outcome)
-    if n < 7:
-        res.fail("autosqlLoop/floor", A, "only %d loops found in autosql.rs, expected >= 7" % n)
+    if n < 4:
+        res.fail("autosqlLoop/floor", A, "only %d loops found in autosql.rs, expected >= 4" % n)
